@@ -239,7 +239,7 @@ def checked_run(model, plus, specs, ops, checker):
             for e in lg:
                 out += [e["from"]] + bts(e["addr"]) + bts(e["data"]) + [int(e["noack"]), e["attempts"], int(e["ok"]),
                                                                          len(e["receivers"])]
-                for a, b in e["receivers"]:
+                for a, b in e["raw_receivers"]:
                     out += [a, b]
             if verdict is None:
                 v = checker.air(k, lg)
